@@ -27,17 +27,19 @@ type retAtom struct {
 	NotEq   bool   // the atom is true when the two sides differ
 	NilTest bool   // comparison of an entry field with nil
 	NilTrue bool   // for nil tests: atom true means the field is nil
+	Free    bool   // a nil test of something that is not a field of the entry (a look-up with the entry's data): may be true or false
 	Text    string
 }
 
 type retainLoop struct {
-	Fn     string
-	Field  string // Type.field that receives the rebuilt slice
-	Keep   *bexpr
-	Atoms  []retAtom
-	Pos    token.Pos
-	Shape  string
-	Source string // the collection ranged over
+	Fn          string
+	Field       string // Type.field that receives the rebuilt slice
+	Keep        *bexpr
+	Atoms       []retAtom
+	Pos         token.Pos
+	Shape       string
+	Source      string // the collection ranged over
+	SourceField string // Type.field when the ranged collection is a field
 }
 
 func (e *bexpr) eval(val []bool) bool {
@@ -216,6 +218,20 @@ func FindRetainLoops(p *Prog, pk *packages.Package, fd *ast.FuncDecl, fnName str
 			rl := retainLoop{Fn: fnName, Field: field, Keep: keep, Atoms: ex.atoms, Pos: rs.Pos(), Shape: shape, Source: types.ExprString(rs.X)}
 			if len(ex.bad) > 0 {
 				rl.Shape = "undecided: " + strings.Join(ex.bad, "; ")
+			}
+			if se, isSel := ast.Unparen(rs.X).(*ast.SelectorExpr); isSel {
+				if sel := info.Selections[se]; sel != nil {
+					if v, isVar := sel.Obj().(*types.Var); isVar && v.IsField() {
+						owner := "?"
+						if n := namedOf(sel.Recv()); n != nil {
+							owner = n.Obj().Name()
+						}
+						rl.SourceField = owner + "." + v.Name()
+					}
+				}
+			}
+			if rl.SourceField != "" && field != "$return" && rl.SourceField != field {
+				rl.Shape = fmt.Sprintf("undecided: the loop ranges over %s but its result replaces %s: the rebuilt list is not a filtered copy of the list it replaces", rl.SourceField, field)
 			}
 			if breaksLoop(rs.Body) {
 				rl.Shape = "undecided: the rebuild loop can be left with break, which drops every entry behind that point"
@@ -418,6 +434,9 @@ func (ex *retainExtractor) atom(a, b ast.Expr, neq bool, text string) *bexpr {
 		// a comparison that does not involve the entry (e.g. an index): keep as an opaque atom
 		at.Label, at.Other = "?"+ex.label(a, 0), ex.label(b, 0)
 	}
+	if at.NilTest && !strings.HasPrefix(at.Label, "$") {
+		at.Free = true
+	}
 	at.Label = strings.TrimPrefix(at.Label, "$.")
 	// reuse an existing atom with the same label/other (polarity folded into the formula)
 	for i, o := range ex.atoms {
@@ -476,40 +495,59 @@ func checkRetain(rl retainLoop, spec retainSpec) (ok bool, detail string) {
 	}
 	comps := sortedKeys(spec.Required)
 	n := len(comps)
-	for m := 0; m < 1<<n; m++ {
-		eq := map[string]bool{}
-		allEq := true
-		for i, c := range comps {
-			eq[c] = m&(1<<i) != 0
-			if !eq[c] {
-				allEq = false
-			}
+	var free []int
+	for i, a := range rl.Atoms {
+		if a.NilTest && a.Free {
+			free = append(free, i)
 		}
-		val := make([]bool, len(rl.Atoms))
-		for i, a := range rl.Atoms {
-			if a.NilTest {
-				val[i] = !a.NilTrue // the entry's own fields are assumed non-nil: "x != nil" is true, "x == nil" false
-				continue
+	}
+	if len(free) > 4 {
+		return false, "undecided: more than four look-up results tested for nil in the retain condition"
+	}
+	for fm := 0; fm < 1<<len(free); fm++ {
+		for m := 0; m < 1<<n; m++ {
+			eq := map[string]bool{}
+			allEq := true
+			for i, c := range comps {
+				eq[c] = m&(1<<i) != 0
+				if !eq[c] {
+					allEq = false
+				}
 			}
-			e := eq[comp[i]]
-			if a.NotEq {
-				val[i] = !e
-			} else {
-				val[i] = e
+			val := make([]bool, len(rl.Atoms))
+			for i, a := range rl.Atoms {
+				if a.NilTest {
+					val[i] = !a.NilTrue // the entry's own fields are assumed non-nil: "x != nil" is true, "x == nil" false
+					for k, fi := range free {
+						if fi == i {
+							val[i] = fm&(1<<k) != 0 // the result of a look-up is nil or not, whatever the entry: both are explored
+						}
+					}
+					continue
+				}
+				e := eq[comp[i]]
+				if a.NotEq {
+					val[i] = !e
+				} else {
+					val[i] = e
+				}
 			}
-		}
-		keep := rl.Keep.eval(val)
-		if keep == allEq {
-			var as []string
-			for _, c := range comps {
-				as = append(as, fmt.Sprintf("%s equal=%v", c, eq[c]))
+			keep := rl.Keep.eval(val)
+			if keep == allEq {
+				var as []string
+				for _, c := range comps {
+					as = append(as, fmt.Sprintf("%s equal=%v", c, eq[c]))
+				}
+				sort.Strings(as)
+				what := "kept although every required component matches"
+				if !keep {
+					what = "removed although a required component differs"
+				}
+				for k, fi := range free {
+					as = append(as, fmt.Sprintf("%s is %v", rl.Atoms[fi].Text, fm&(1<<k) != 0))
+				}
+				return false, fmt.Sprintf("retain condition %s: an entry with %s is %s", rl.Keep.String(rl.Atoms), strings.Join(as, ", "), what)
 			}
-			sort.Strings(as)
-			what := "kept although every required component matches"
-			if !keep {
-				what = "removed although a required component differs"
-			}
-			return false, fmt.Sprintf("retain condition %s: an entry with %s is %s", rl.Keep.String(rl.Atoms), strings.Join(as, ", "), what)
 		}
 	}
 	return true, fmt.Sprintf("keep ⇔ ¬(%s all equal): %s", strings.Join(comps, " ∧ "), rl.Keep.String(rl.Atoms))
